@@ -2,7 +2,7 @@
 """Entry point of every registered check:  python3 tools/check.py <Cnn> [--tier quick|thorough] [--replay file]"""
 import sys, os, json, argparse, re
 sys.path.insert(0, os.path.dirname(os.path.abspath(__file__)))
-import vlib, hashcheck, aescheck, c12check
+import vlib, hashcheck, aescheck, c12check, padcheck
 
 
 # ----------------------------------------------------------------------------- hash family
@@ -34,6 +34,9 @@ def check_hash(pid, tier, replay=None):
     for name, detail in failed:
         chk.violation("Lean obligation no longer checks: %s" % name,
                       {"kind": "obligation", "obligation": name, "detail": detail}, no_input=True)
+    if pid == "C01" and not replay:
+        # T-route: hash_pad of every context-layer file, regenerated from the source and re-proved (all totals, all buffers)
+        padcheck.obligations(chk, tier)
     drv = vlib.harness_bin("drv_hash", extra_src=vlib.TRAMP_SRC)
     if replay:
         rp = json.load(open(replay))
@@ -151,11 +154,11 @@ def check_aes(pid, tier, replay=None):
         rounds = 1 if tier == "quick" else 4
         sj = [("gcm", f, s * 31 + 7, 1400 * rounds, 3000) for f in whats["gcm"] for s in seeds]
         results += aescheck.sweep(drv, sj, env={"VERIF_GCM_SWEEP": "1"})
-        if tier != "quick":
-            # one update of more than 4 GiB after a carried partial block, every family and key size (OpenSSL oracle)
-            bj = [("gcm", f, chk.seed * 41 + 3, 20, 300) for f in whats["gcm"]]
-            results += aescheck.sweep(drv, bj, env={"VERIF_GCM_BIG": "1"})
-    if pid == "C04" and tier != "quick":
+        # one update of more than 4 GiB after a carried partial block, every family and key size (OpenSSL oracle);
+        # the quick tier leaves out the non-temporal twins (same macros, different stores)
+        bj = [("gcm", f, chk.seed * 41 + 3, 20, 300) for f in whats["gcm"] if tier != "quick" or not f.endswith("_nt")]
+        results += aescheck.sweep(drv, bj, env={"VERIF_GCM_BIG": "1"})
+    if pid == "C04":
         # one CBC decrypt call of more than 4 GiB (2^32 + 1..7 blocks) per family and key size, OpenSSL oracle
         bj = [("cbc", f, chk.seed * 43 + 1, 20, 300) for f in whats["cbc"]]
         results += aescheck.sweep(drv, bj, env={"VERIF_CBC_BIG": "1"})
@@ -576,6 +579,9 @@ def check_c20(pid, tier, replay=None):
         g = ["IsalVerif.C20Gcm.C20_gcm", "IsalVerif.C20Gcm.C20_gcm_noninterference"]
         for name, detail in vlib.lean_obligations(chk, "IsalVerif.Props.C20Gcm", g):
             chk.violation("Lean obligation no longer checks: %s" % name, {"kind": "obligation", "obligation": name, "detail": detail}, no_input=True)
+    if not replay:
+        # T-route: hash_pad's result is independent of the stale content of the pad buffer (hashpad_current_junk)
+        padcheck.obligations(chk, tier)
     envs = [{"VERIF_POISON": "1"}, {"VERIF_POISON": "2"}]
     results = _mode_sweep(chk, tier, envs, ("C20-",))
     total = _report_mode_results(chk, results, ("C20-", "C01-", "C02-", "C03-", "C04-", "C07-"))
@@ -596,6 +602,41 @@ def check_c20(pid, tier, replay=None):
                               {"kind": "input", "family": key, "args": lst[0][1]["args"], "line": i,
                                "run1": a[i][:200] if i >= 0 else "", "run2": b[i][:200] if i >= 0 else ""},
                               match={"family": key, "monitor": "paired"})
+    # multi-hash and rolling-hash objects: same declared inputs, different junk in the context / state object before init
+    import subprocess
+    from concurrent.futures import ThreadPoolExecutor
+    mdrv = vlib.harness_bin("drv_mh")
+    rdrv = vlib.harness_bin("drv_rolling", cflags=("-Wl,--wrap=_rolling_hash2_run_until",), libs=())
+    d = vlib.scratch()
+    nm, nr = (600, 4000) if tier == "quick" else (4000, 30000)
+    pjobs = [("mh", [mdrv, a, f, str(chk.seed * 7 + 3), str(nm), "5000"], ()) for a in ("mh_sha1", "mh_sha256", "mh_sha1_murmur")
+             for f in ("base", "sse", "avx", "avx2", "avx512", "pub")]
+    pjobs += [("rh", [rdrv, i, str(chk.seed * 7 + 5), str(nr), "600"], ("big=0",)) for i in ("base", "00", "04", "pub")]
+
+    def prun(job):
+        kind, argv, tail = job
+        outs = []
+        for pz in ("1", "2"):
+            ops = os.path.join(d, "p20_%s_%s_%s_o%s" % (kind, argv[1], argv[2], pz))
+            res = os.path.join(d, "p20_%s_%s_%s_r%s" % (kind, argv[1], argv[2], pz))
+            rr = subprocess.run(argv + [ops, res] + list(tail), capture_output=True, text=True, env=dict(os.environ, VERIF_POISON=pz))
+            outs.append((rr.returncode, open(res).read().split("\n") if os.path.exists(res) else []))
+        return job, outs
+    with ThreadPoolExecutor(max_workers=12) as ex:
+        pres = list(ex.map(prun, pjobs))
+    for (kind, argv, tail), outs in pres:
+        key = "%s/%s%s" % (kind, argv[1], ("/" + argv[2]) if kind == "mh" else "")
+        a_, b_ = outs[0][1], outs[1][1]
+        same = a_ == b_ and len(a_) > 1 and outs[0][0] == outs[1][0]
+        pairs += 1
+        total += len(a_)
+        chk.oblige("paired executions agree %s (junk in the object before init)" % key, same, "lines=%d exit=%d/%d" % (len(a_), outs[0][0], outs[1][0]))
+        if not same:
+            i = next((i for i, (x, y) in enumerate(zip(a_, b_)) if x != y), -1)
+            chk.violation("result depends on what the %s object held before init in %s" % ("multi-hash context" if kind == "mh" else "rolling-hash state", key),
+                          {"kind": "input", "family": key, "argv": argv[1:] + list(tail), "env": "VERIF_POISON=1 vs 2", "line": i,
+                           "run1": a_[i][:200] if 0 <= i < len(a_) else "", "run2": b_[i][:200] if 0 <= i < len(b_) else ""},
+                          match={"family": key, "monitor": "paired"})
     chk.cov["evaluations"] = total
     chk.cov["distinct_nontrivial"] = pairs
     chk.cov["paired_executions"] = pairs
@@ -774,6 +815,9 @@ def check_c15(pid, tier, replay=None):
         chk.violation("Lean obligation no longer checks: %s" % name,
                       {"kind": "obligation", "obligation": name, "detail": detail}, no_input=True)
     modes = [0] if tier == "quick" else [0, 1, 2]
+    if not replay:
+        # T-route: hash_pad (where the length field is computed) of every context-layer file, for ALL totals < 2^64
+        padcheck.obligations(chk, tier)
     if replay:
         rp = json.load(open(replay))
         if len(rp.get("args", [])) >= 6:      # a drv_hash history (jumped totals)
@@ -1072,7 +1116,7 @@ def check_wrap(pid, tier, replay=None):
         hit = [k for k in found if k[0] == rp.get("monitor", "").split()[1] and k[1] == rp.get("entry")] if rp.get("monitor") else found
         print("replay: %s" % (hit[:3],))
         return 1 if hit else 0
-    if pid == "C16" and tier != "quick" and not replay:
+    if pid == "C16" and not replay:
         # arguments the wrappers forward unchanged: lengths are 64-bit.  One isal_aes_cbc_dec_* call of more than 4 GiB per key
         # size (a wrapper that narrows the length returns 0 and leaves most of the output unwritten), OpenSSL oracle
         drv_aes = vlib.harness_bin("drv_aes", extra_src=vlib.TRAMP_SRC)
@@ -1351,6 +1395,8 @@ def main():
     if a.replay:
         os.environ["VERIF_REPLAYING"] = "1"     # keep the replay files of earlier runs (the one being replayed among them)
     try:
+        if a.replay and json.load(open(a.replay)).get("kind") == "hashpad":
+            return padcheck.replay(json.load(open(a.replay)))
         return CHECKS[a.pid](a.pid, a.tier, a.replay)
     except Exception as e:
         # A step of the machinery itself failed (a variant of the library no longer builds, a translator cannot read the
